@@ -34,11 +34,12 @@ theorem generated_buildOpenArgs_eq (a : Args) (s : SSHArgs) (extra pre : List By
 
 /-! ## system transport: shape of the argument vector -/
 
-/-- the fixed head of the argv: host first, `-p port`, the two timeout options -/
+/-- the fixed head of the argv: host first, `-p port`, the two timeout options, no escape character -/
 def head (a : Args) : List Bytes :=
   [a.host, b!"-p", fmtInt a.port,
    b!"-o", b!"ConnectTimeout=" ++ fmtInt (timeoutSeconds a.timeoutNs),
-   b!"-o", b!"ServerAliveInterval=" ++ fmtInt (timeoutSeconds a.timeoutNs)]
+   b!"-o", b!"ServerAliveInterval=" ++ fmtInt (timeoutSeconds a.timeoutNs),
+   b!"-o", b!"EscapeChar=none"]
 
 def userPart (a : Args) : List Bytes := if a.user = [] then [] else [b!"-l", a.user]
 
@@ -55,7 +56,7 @@ def keyPart (s : SSHArgs) : List Bytes :=
   if s.privateKeyPath = [] then [] else [b!"-i", s.privateKeyPath]
 
 /-- `argv_identity`: for every configuration the argv is exactly
-host, `-p port`, timeouts, `-l user` iff a user is set, the strict-key options (known-hosts option
+host, `-p port`, timeouts, `-o EscapeChar=none`, `-l user` iff a user is set, the strict-key options (known-hosts option
 iff strict ∧ set), `-F cfg` or `-F /dev/null`, `-i key` iff set, then the extra arguments, last
 and in order — nothing else, and nothing depending on anything else. -/
 theorem argv_identity (a : Args) (s : SSHArgs) (extra : List Bytes) :
@@ -64,8 +65,20 @@ theorem argv_identity (a : Args) (s : SSHArgs) (extra : List Bytes) :
   cases hs : s.strictKey <;> by_cases hu : a.user = [] <;> by_cases hk : s.knownHostsFile = [] <;>
     by_cases hc : s.configFile = [] <;> by_cases hp : s.privateKeyPath = [] <;> simp [*]
 
+/-- `argv_no_escape_char`: for every configuration the argv carries `-o EscapeChar=none` at the
+fixed positions 7 and 8 — in scrapligo's own part of the command line, before the strict-key
+options and before any caller-supplied extra argument (so, `-o` values being first-wins, no extra
+argument can re-enable the escape character). -/
+theorem argv_no_escape_char (a : Args) (s : SSHArgs) (extra : List Bytes) :
+    ((buildOpenArgs a s extra).drop 7).take 2 = [b!"-o", b!"EscapeChar=none"] ∧
+    ∃ pre post, buildOpenArgs a s extra = pre ++ [b!"-o", b!"EscapeChar=none"] ++ post ++ extra ∧
+      pre.length = 7 := by
+  rw [argv_identity]
+  refine ⟨by simp [head], (head a).take 7, userPart a ++ strictPart s ++ cfgPart s ++ keyPart s, ?_, by simp [head]⟩
+  simp [head]
+
 /-- index where the strict-key options start -/
-def strictAt (a : Args) : Nat := if a.user = [] then 7 else 9
+def strictAt (a : Args) : Nat := if a.user = [] then 9 else 11
 
 /-- `argv_strict` (positional, no hypotheses): right after the head and the optional `-l user`
 come `-o StrictHostKeyChecking=yes` when strict checking is on, and
@@ -110,10 +123,12 @@ theorem prefix_meaning (a : Args) (s : SSHArgs) (rest : List Bytes) (hh : hostOk
   show List.foldl step {} (a.host :: b!"-p" :: fmtInt a.port ::
       b!"-o" :: (b!"ConnectTimeout=" ++ fmtInt (timeoutSeconds a.timeoutNs)) ::
       b!"-o" :: (b!"ServerAliveInterval=" ++ fmtInt (timeoutSeconds a.timeoutNs)) ::
+      b!"-o" :: b!"EscapeChar=none" ::
       (userPart a ++ (strictPart s ++ (cfgPart s ++ (keyPart s ++ rest))))) = _
   rw [List.foldl_cons, h0, pair_p _ _ r1, applyOpt_p _ _ rfl]
   have r2 := ready_upd_port (some (fmtInt a.port)) r1
-  rw [pair_o _ _ r2, applyOpt_connectTimeout, pair_o _ _ r2, applyOpt_serverAlive]
+  rw [pair_o _ _ r2, applyOpt_connectTimeout, pair_o _ _ r2, applyOpt_serverAlive,
+    pair_o _ _ r2, applyOpt_escapeChar]
   -- user
   have hu : ∃ e : Eff, Ready e ∧ e.strict = none ∧ e.knownHosts = none ∧
       e = { host := some a.host, port := some (fmtInt a.port),
@@ -279,7 +294,7 @@ theorem buildOpenArgs_marker_free (a : Args) (s : SSHArgs) (extra : List Bytes) 
   simp only [List.mem_append] at he
   rcases he with ((((he | he) | he) | he) | he) | he
   · simp only [head, List.mem_cons, List.not_mem_nil, or_false] at he
-    rcases he with rfl | rfl | rfl | rfl | rfl | rfl | rfl
+    rcases he with rfl | rfl | rfl | rfl | rfl | rfl | rfl | rfl | rfl
     · exact hh
     · exact lit _ (by decide)
     · exact hint _
@@ -287,6 +302,8 @@ theorem buildOpenArgs_marker_free (a : Args) (s : SSHArgs) (extra : List Bytes) 
     · exact happ _ _ (lit _ (by decide)) (hint _)
     · exact lit _ (by decide)
     · exact happ _ _ (lit _ (by decide)) (hint _)
+    · exact lit _ (by decide)
+    · exact lit _ (by decide)
   · unfold userPart at he
     split at he
     · cases he
